@@ -123,6 +123,24 @@ func driveVerify(c *ctx) {
 		btc(q, digest, sigs[secec.EncodingASN1])
 	}
 
+	// cold start: the FIRST library calls of this process are verifications (a verifier-only process: no key generation, import of a
+	// private key or signing has happened yet); keys and valid signatures come from math/big
+	for i := 0; i < 3; i++ {
+		pubBytes, digest, r, sv := bigECDSA(rng)
+		q, err := secec.NewPublicKey(pubBytes)
+		if err != nil {
+			c.E("lib.Unexpected", "what", "a valid public key was rejected: "+err.Error(), "in", hx(pubBytes))
+			continue
+		}
+		switch i {
+		case 0:
+			raw(q, digest, r, sv)
+		case 1:
+			enc(q, digest, secec.BuildCompactSignature(scFrom(r), scFrom(sv)), &secec.ECDSAOptions{Encoding: secec.EncodingCompact, RejectMalleable: true})
+		default:
+			btc(q, digest, append(secec.BuildASN1Signature(scFrom(r), scFrom(sv)), 0x01))
+		}
+	}
 	// honest signatures: accept; both s and n-s; bit flips; digest variants
 	for i := 0; i < c.scale(12, 200); i++ {
 		d := add(randBig(rng, add(bigN, -1)), 1)
@@ -683,6 +701,16 @@ func driveSign(c *ctx) {
 						out := q.Verify(dg, sig, &secec.ECDSAOptions{Hash: oc.hash, Encoding: oc.enc, RejectMalleable: true})
 						c.E("vfy.Enc", "q", hx(q.Bytes()), "digest", hx(dg), "sig", hx(sig), "hasopts", true, "hash", hsize, "enc", encName(oc.enc), "rejmal", true, "out", out)
 					}
+					// ... and imported from uncompressed bytes through a scratch buffer the verifier then reuses
+					scratch := priv.PublicKey().Bytes()
+					want := hx(scratch)
+					if q, kerr := secec.NewPublicKey(scratch); kerr == nil {
+						for i := range scratch {
+							scratch[i] = 0x11
+						}
+						out := q.Verify(dg, sig, &secec.ECDSAOptions{Hash: oc.hash, Encoding: oc.enc, RejectMalleable: true})
+						c.E("vfy.Enc", "q", want, "digest", hx(dg), "sig", hx(sig), "hasopts", true, "hash", hsize, "enc", encName(oc.enc), "rejmal", true, "out", out)
+					}
 				}
 				// signatures handed out earlier (other keys, digests, encodings) are the caller's: later signing never changes them
 				for _, k := range kept {
@@ -722,6 +750,13 @@ func driveRecover(c *ctx) {
 			c.E("vfy.Raw", "q", o, "digest", hx(digest), "r", h32(r), "s", h32(s), "out", q.VerifyRaw(digest, scFrom(r), scFrom(s)))
 		}
 		c.E("rec.Recover", "digest", hx(digest), "r", h32(r), "s", h32(s), "v", v, "ok", err == nil, "q", o, "honest", honest, "signer", signer)
+	}
+	// cold start: the first library calls of this process are recoveries of math/big signatures (all four ids)
+	for i := 0; i < 2; i++ {
+		pubBytes, digest, r, sv := bigECDSA(rng)
+		for v := 0; v < 4; v++ {
+			rec(digest, r, sv, v, false, hx(pubBytes))
+		}
 	}
 	allV := func(digest []byte, r, s *big.Int, honest bool, signer string, dense bool) {
 		for v := 0; v < 256; v++ {
@@ -804,7 +839,7 @@ func driveRecover(c *ctx) {
 		if err != nil {
 			panic(err)
 		}
-		for _, vb := range []int{int(v), int(v) ^ 1, int(v) | 4, int(v) | 8, int(v) | 0x10, int(v) | 0x80, int(v) | 0xfc, int(v) + 27, int(v) + 31} {
+		for _, vb := range []int{int(v), int(v) ^ 1, int(v) ^ 2, int(v) ^ 3, int(v) | 4, int(v) | 8, int(v) | 0x10, int(v) | 0x80, int(v) | 0xfc, int(v) + 27, int(v) + 31} {
 			wire := secec.BuildCompactRecoverableSignature(r, s, byte(vb))
 			out := priv.PublicKey().Verify(digest, wire, &secec.ECDSAOptions{Encoding: secec.EncodingCompactRecoverable})
 			c.E("vfy.Enc", "q", hx(priv.PublicKey().Bytes()), "digest", hx(digest), "sig", hx(wire), "hasopts", true, "hash", 32, "enc", "recoverable", "rejmal", false, "out", out)
@@ -1108,6 +1143,32 @@ func driveKeys(c *ctx) {
 			}
 			c.E("rec.Recover", "digest", h32(e), "r", h32(x), "s", h32(sv), "v", v, "ok", err == nil, "q", o, "honest", false, "signer", "")
 		}
+	}
+
+	// the crypto.Signer view first: Public() on a key object whose PublicKey() was never called, then ECDH with it
+	for i := 0; i < c.scale(3, 20); i++ {
+		a, b := add(randBig(rng, add(bigN, -1)), 1), add(randBig(rng, add(bigN, -1)), 1)
+		ka, err1 := secec.NewPrivateKey(be32(a)[:])
+		kb, err2 := secec.NewPrivateKeyFromScalar(scFrom(b))
+		if err1 != nil || err2 != nil {
+			c.E("lib.Unexpected", "what", "a valid private key was rejected")
+			continue
+		}
+		var ab, ba []byte
+		var e1, e2 error
+		bpubHex, apubHex := "", ""
+		pn := catch(func() {
+			bpub, _ := kb.Public().(*secec.PublicKey)
+			ab, e1 = ka.ECDH(bpub)
+			apub, _ := ka.Public().(*secec.PublicKey)
+			ba, e2 = kb.ECDH(apub)
+			bpubHex, apubHex = hx(bpub.Bytes()), hx(apub.Bytes())
+		})
+		if pn {
+			c.E("lib.Unexpected", "what", "ECDH with Public() of a fresh key object panicked", "a", h32(a), "b", h32(b))
+			continue
+		}
+		c.E("ecdh", "a", h32(a), "b", h32(b), "apub", apubHex, "bpub", bpubHex, "ab", hx(ab), "ba", hx(ba), "okab", e1 == nil, "okba", e2 == nil)
 	}
 
 	// ECDH
